@@ -511,6 +511,20 @@ def process_level_state():
                                 if isinstance(t, ast.Attribute) and isinstance(t.value, ast.Name) and t.value.id == "cls":
                                     out.append((mod, prefix + st.name + "." + t.attr, "cls-attr"))
         scan(tree.body, "")
+        # memoising decorators keep results for the life of the process (lru_cache / cache on a function or method;
+        # cached_property lives in the instance and is not process-level)
+        for node in ast.walk(tree):
+            if isinstance(node, (ast.FunctionDef, ast.AsyncFunctionDef)):
+                for dec in node.decorator_list:
+                    d = dec.func if isinstance(dec, ast.Call) else dec
+                    dn = d.id if isinstance(d, ast.Name) else (d.attr if isinstance(d, ast.Attribute) else "")
+                    if dn in ("lru_cache", "cache"):
+                        out.append((mod, node.name, "memo:" + dn))
+            if isinstance(node, ast.Call):
+                f = node.func
+                fn = f.id if isinstance(f, ast.Name) else (f.attr if isinstance(f, ast.Attribute) else "")
+                if fn in ("lru_cache", "cache") and node.args and not isinstance(node.args[0], ast.Constant):
+                    out.append((mod, ast.unparse(node.args[0])[:40], "memo:" + fn))      # lru_cache(f) used as a call
     return sorted(set(out))
 
 
